@@ -400,11 +400,15 @@ func runEngineB(p *Prog, o *obls) {
 	var srcs []src
 	closures, _ := p.PktClosures()
 	for _, c := range closures {
+		off := 0
+		if c.Wrapper != nil {
+			off = 1 // method form: parameter 0 is the receiver
+		}
 		switch c.Kind {
 		case RTPWriter:
-			srcs = append(srcs, src{c.Fn, []int{0, 1}, "header and payload of the caller's Write"})
+			srcs = append(srcs, src{c.Fn, []int{off, off + 1}, "header and payload of the caller's Write"})
 		case RTPReader, RTCPReader:
-			srcs = append(srcs, src{c.Fn, []int{0}, "the caller's read buffer"})
+			srcs = append(srcs, src{c.Fn, []int{off}, "the caller's read buffer"})
 		}
 	}
 	// Write methods of types implementing RTPWriter (pacers)
